@@ -58,6 +58,35 @@ func c04ResponseOps() ([]c04RespOp, J) {
 		{ID: "rErrorHeaders", Responses: J{"200": J{"description": "ok"}, "429": J{"description": "slow down", "headers": J{"Retry-After": J{"type": "integer"}}, "schema": J{"$ref": "#/definitions/Err"}}},
 			Specs: []c04Respond{{rs(429, errBody, map[string][]string{"Retry-After": {"30"}}), "typed-error", "429"}, {rs(200, nil, nil), "success", "200"}}},
 	}
+	// every registered 2xx status code is a success for the client
+	{
+		resp, specs := J{}, []c04Respond{}
+		for _, code := range []int{200, 201, 202, 203, 206, 207, 208, 226} {
+			resp[fmt.Sprint(code)] = J{"description": "2xx", "schema": J{"$ref": "#/definitions/Pet"}}
+			specs = append(specs, c04Respond{rs(code, petBody, nil), "success", fmt.Sprint(code)})
+		}
+		ops = append(ops, c04RespOp{ID: "rEvery2xx", Responses: resp, Specs: specs})
+	}
+	// "whatever ... body the handler responds with": every answer that carries a payload is also given without
+	// one (status and headers only), and every answer with headers also without them; the expectation is the same
+	for i := range ops {
+		var extra []c04Respond
+		for _, sp := range ops[i].Specs {
+			if len(sp.Spec.Body) > 0 {
+				t := sp
+				t.Spec.Body = nil
+				t.Spec.Variant = "without payload"
+				extra = append(extra, t)
+			}
+			if len(sp.Spec.Header) > 0 {
+				t := sp
+				t.Spec.Header = nil
+				t.Spec.Variant = "without headers"
+				extra = append(extra, t)
+			}
+		}
+		ops[i].Specs = append(ops[i].Specs, extra...)
+	}
 	return ops, defs
 }
 
@@ -272,7 +301,7 @@ func RunC04(tier, replay string) int {
 		out := m.sp.Expect
 		viol := func(kind, what string) {
 			out = "VIOLATION:" + kind
-			r.Violate(evid.Violation{Signature: fmt.Sprintf("%s | %s | code %d | expect %s", kind, m.op.ID, m.sp.Spec.Code, m.sp.Expect), What: fmt.Sprintf("%s: operation %s, handler answers %d %s: %s", kind, m.op.ID, m.sp.Spec.Code, string(m.sp.Spec.Body), what), Case: cs,
+			r.Violate(evid.Violation{Signature: joinNonEmpty(" | ", fmt.Sprintf("%s | %s | code %d | expect %s", kind, m.op.ID, m.sp.Spec.Code, m.sp.Expect), m.sp.Spec.Variant), What: fmt.Sprintf("%s: operation %s, handler answers %d %s: %s", kind, m.op.ID, m.sp.Spec.Code, string(m.sp.Spec.Body), what), Case: cs,
 				Observed: map[string]interface{}{"results": rs.Results, "error": rs.Error}})
 		}
 		var val *InteropValue
@@ -332,7 +361,7 @@ func RunC04(tier, replay string) int {
 				}
 			}
 		}
-		r.CaseKeyed(fmt.Sprintf("resp|%s|%d", m.op.ID, m.sp.Spec.Code), map[string]interface{}{"op": m.op.ID, "handler_answers": m.sp.Spec.Code, "expect": m.sp.Expect}, true, out)
+		r.CaseKeyed(fmt.Sprintf("resp|%s|%d|%s", m.op.ID, m.sp.Spec.Code, m.sp.Spec.Variant), map[string]interface{}{"op": m.op.ID, "handler_answers": m.sp.Spec.Code, "variant": m.sp.Spec.Variant, "expect": m.sp.Expect}, true, out)
 	}
 	if replay != "" {
 		_ = os.Stderr
